@@ -1,6 +1,7 @@
 package props
 
 import (
+	"os/exec"
 	"encoding/binary"
 	"encoding/json"
 	"fmt"
@@ -419,6 +420,13 @@ func pool(mode string) *ops.Pool {
 	case "race":
 		p.Bin = raceBin
 		p.Race = true
+	case "onecpu":
+		// a process confined to one CPU (a one-vCPU container, taskset -c 0): runtime.NumCPU() == 1 as well
+		if ts, err := exec.LookPath("taskset"); err == nil {
+			p.Prefix = []string{ts, "-c", "0"}
+		} else {
+			p.Env = []string{"GOMAXPROCS=1"}
+		}
 	case "single":
 		// a process that starts with one P (a one-CPU container): package-level sizing decisions see GOMAXPROCS == 1
 		p.Env = []string{"GOMAXPROCS=1"}
